@@ -18,7 +18,7 @@ OBJ2 = b"another ascii object\n"
 DOC = "<metadata>one\r\n\u00e9</metadata>\r".encode("utf-8")
 DOC2 = b"<metadata>two, a longer one</metadata>\n"
 ARGERR = {"ValueError", "TypeError", "UnsupportedAlgorithm"}
-PIDS = ("held", "new", "unknown", "rotten")
+PIDS = ("held", "new", "unknown", "rotten", "@at", "@new")
 FORMATS = (NS, "fmt2")
 
 
@@ -74,6 +74,7 @@ def base_tree():
     s.store_metadata("held", INP["doc"])
     s.store_metadata("held", INP["doc"], "fmt2")
     # a pid whose object file was altered on disk after it was stored (bit rot, truncated restore)
+    s.store_object("@at", INP["doc2"])  # a pid that starts with the character argparse can treat as 'read from file'
     md = s.store_object("rotten", INP["doc2"])
     t = snapshot(root)
     from ..absx import Layout as _L
@@ -116,6 +117,13 @@ def cases():
             out.append(("retrievemetadata", {"pid": pid, "formatid": fmt}))
             out.append(("deletemetadata", {"pid": pid, "formatid": fmt}))
             out.append(("storemetadata", {"pid": pid, "path": "doc2", "formatid": fmt}))
+    # option values as separate tokens (the form --help shows), including values that start with '@'
+    for pid in ("@at", "@new", "held"):
+        out.append(("retrieveobject", {"pid": pid, "_sep": True}))
+        out.append(("getchecksum", {"pid": pid, "algo": "md5", "_sep": True}))
+        out.append(("storemetadata", {"pid": pid, "path": "doc2", "formatid": "@fmt", "_sep": True}))
+        out.append(("deleteobject", {"pid": pid, "_sep": True}))
+    out.append(("storeobject", {"pid": "@new", "path": "obj2", "_sep": True}))
     out.append(("storeobject", {"pid": None, "path": "obj2"}))
     out.append(("storeobject", {"pid": "new", "path": None}))
     out.append(("getchecksum", {"pid": None, "algo": "md5"}))
@@ -131,9 +139,14 @@ def _case(args):
     restore(rc, base)
     restore(ra, base)
     argv = [rc, "-" + verb]
+    sep = o.get("_sep")
+    o = {k: v for k, v in o.items() if k != "_sep"}
     for k, v in o.items():
         if v is not None:
-            argv.append("-%s=%s" % (k, INP[v] if k == "path" else v))
+            if sep:
+                argv += ["-" + k, INP[v] if k == "path" else v]
+            else:
+                argv.append("-%s=%s" % (k, INP[v] if k == "path" else v))
     co, cout = run_client(argv)
     pid = o.get("pid")
     fmt = o.get("formatid")
